@@ -490,6 +490,8 @@ def dispatch(ctx, case):
         return intarr_pow_fails(case, ctx)
     if case.get('op') == 'intbase-pow':
         return intbase_pow_fails(case)
+    if case.get('op') == 'bigexp-pow':
+        return bigexp_pow_fails(ctx, case)
     if case.get('form') == 'inplace-view':
         return inplace_view_fails(case)
     if case.get('op') == 'pow':
@@ -514,6 +516,7 @@ def run(ctx):
     systematic_intarr_pow(ctx)
     systematic_pow_dtypes(ctx)
     systematic_intbase_pow(ctx)
+    systematic_bigexp_pow(ctx)
     for i in range(n):
         case = gen_pow(ctx.rng, ctx.tier) if i % 6 == 5 else gen_case(ctx.rng, ctx.tier)
         ctx.evaluations += 1
@@ -738,6 +741,55 @@ def intbase_pow_fails(case):
     if got.dtype.kind in 'iub' or not close(got, want, 1e-12):
         return 'intbase-pow: x ** %r with %s coefficients differs from the float copy of the same polynomial (result dtype %s)' % (r, case['dtype'], got.dtype)
     return None
+
+
+def bigexp_pow_fails(ctx, case):
+    """x ** r for a LARGE Python int r (beyond the repeated-product range, also beyond 64 bits): returns, and equals the
+    square-and-multiply model in exact rational arithmetic (`powBinS`, theorem C02.pow_large_int_exponent)"""
+    import signal
+    x = np.array(case['x'])
+    r = int(case['r'])
+
+    class _Timeout(Exception):
+        pass
+
+    def _alarm(signum, frame):
+        raise _Timeout()
+    old = signal.signal(signal.SIGALRM, _alarm)
+    signal.alarm(20)
+    try:
+        with np.errstate(all='ignore'):
+            z = (UTPM(x.copy()) ** r).data
+    except _Timeout:
+        return 'bigexp-pow-hang: x ** %d did not return within 20 s' % r
+    except Exception as ex:
+        return 'bigexp-pow-exception: x ** %d raised %s' % (r, type(ex).__name__ + ':' + str(ex)[:60])
+    finally:
+        signal.alarm(0)
+        signal.signal(signal.SIGALRM, old)
+    m = ctx.model.arrs({'op': 'ew1', 'fn': 'powbin', 'x': enc_arr(x), 'leaves': [], 'params': [], 'n': r})
+    if isinstance(m, str):
+        return 'bigexp-pow-model: the model rejected the case (%s)' % m[:80]
+    want = np.asarray(m[0], dtype=float)
+    if not np.all(np.isfinite(want)):
+        return None
+    if z.shape != want.shape or not np.allclose(z, want, rtol=1e-9, atol=1e-300):
+        return 'mismatch-bigexp-pow: x ** %d differs from the square-and-multiply model, max diff %s' % (r, maxdiff(z, want))
+    return None
+
+
+def systematic_bigexp_pow(ctx):
+    for r in (65, 100, 129, 1000, 2 ** 64, 2 ** 64 + 3):
+        D, P = 4, ctx.rng.randint(1, 2)
+        x = rand_coeffs(ctx.rng, (D, P, 2), -1, 1) / float(r)                 # (1 + u/r)^r stays of order one
+        x[0] = 1.0
+        x[0, :, 1] = 0.0 if r < 2 ** 63 else 1.0                                  # a zero base point too (small enough exponents)
+        case = {'op': 'bigexp-pow', 'D': D, 'P': P, 'x': x, 'r': str(r)}
+        ctx.evaluations += 1
+        ctx.count('pow:large-int-exponent')
+        res = bigexp_pow_fails(ctx, case)
+        if res is not None:
+            ctx.report(case, 'failure', res)
 
 
 def systematic_intbase_pow(ctx):
